@@ -30,6 +30,10 @@ var (
 	tValues  = reflect.TypeOf(url.Values{})
 )
 
+type failingCloser struct{ *strings.Reader }
+
+func (failingCloser) Close() error { return errors.New("dirty-close-error") }
+
 // hostile returns a "dirty" value of type t, or ok=false if the type is not supported.
 func hostile(t reflect.Type, variant int) (v reflect.Value, ok bool) {
 	pcFlag := variant&4 != 0 // callbacks without results panic (operations named "...!panic")
@@ -38,6 +42,10 @@ func hostile(t reflect.Type, variant int) (v reflect.Value, ok bool) {
 	case tErr:
 		return reflect.ValueOf(errors.New("dirty-error")).Convert(t), true
 	case tReader:
+		if variant == 0 {
+			// a stream that is an io.Closer whose Close fails: whoever resets the object must drop it all the same
+			return reflect.ValueOf(io.Reader(&failingCloser{strings.NewReader("dirty-stream")})), true
+		}
 		return reflect.ValueOf(io.Reader(strings.NewReader("dirty-stream"))), true
 	case tWriter:
 		return reflect.ValueOf(io.Discard).Convert(t), true
